@@ -480,6 +480,8 @@ func run(c *core.Ctx) {
 			}
 			if t, ok := core.JSONTree([]byte(out)); ok {
 				enc = "(Ok (WJson " + t + "))"
+				// text level: the Gallina printer must reproduce the encoder's text from the tree
+				c.Case(class+"/text", core.GApp("CEnc", t, core.GStr(out)), map[string]interface{}{"op": "print", "text": out})
 			} else {
 				enc = "(Ok (WLegacy " + core.GStr(out) + "))"
 			}
